@@ -148,7 +148,7 @@ class C05(Property):
         tj = [e1.tok_json(t) for t in toks]
         out.log.ev("label", config, text)
 
-        custom = rng.random() < 0.1
+        custom = rng.choice([True, "plain"]) if rng.random() < 0.1 else False
         if custom:
             out.inc("probe.custom-container-classes")
 
